@@ -303,6 +303,9 @@ int main(int argc, char** argv)
       out << "\"first\":{" << first.str() << "},";
     }
     bool refined = IS->refine_adjustment();
+    // gama-local calls TestLinearization(IS, cout) here, which solves the network for the last linearisation point; at
+    // the iteration limit refine_adjustment() returns with the adjustment pending and counts from the previous revision
+    IS->solve();
     out << "\"refined\":" << refined << ",";
     dump_points(out, IS); out << ",";
     dump_removed(out, IS); out << ",";
